@@ -49,7 +49,7 @@ TITLES = [("R0", "windows"), ("R1", "linux")]
 
 def _spec(w: Random, i: int, rich: bool) -> dict:
     tag = f"p{i}"
-    spec: dict[str, Any] = {"name": f"pl{i}", "priority": w.choice([0, 10, 10, 20, 20, 50])}
+    spec: dict[str, Any] = {"name": f"pl{i}", "priority": w.choice([0, 10, 10, 20, 20, 50, -5, -10, 1000])}
     v: dict[str, Any] = {f"k{i}": tag}
     if gen.chance(w, 0.6):
         v["v"] = tag
